@@ -101,8 +101,10 @@ func (v *V) memComp(elem types.Type) (string, string) {
 	es := v.d.sortOf(elem)
 	if isRefLike(elem) {
 		// memories of references are kept apart from memories of integers (same SMT sort)
-		v.d.refComps["M$Ref"] = "mem"
-		return "M$Ref", fmt.Sprintf("(Array Int (Array %s %s))", v.d.idxSort(), es)
+		// (one memory per element type: slices of different element types never share storage)
+		comp := "M$Ref." + typeKey(elem)
+		v.d.refComps[comp] = "mem"
+		return comp, fmt.Sprintf("(Array Int (Array %s %s))", v.d.idxSort(), es)
 	}
 	if b, ok := elem.Underlying().(*types.Basic); ok && v.d.mode == ModeInt && b.Info()&types.IsInteger != 0 {
 		// integer memories are kept apart by element kind: Go slices of different element
